@@ -172,6 +172,13 @@ class World:
         return [[to_int(v)] for v in d]
 
     def snap(self, kind, obj) -> str:
+        """observable snapshot; an object that can no longer be observed is a state of its own (never a harness crash)"""
+        try:
+            return self._snap(kind, obj)
+        except Exception as e:  # noqa: BLE001
+            return f"start=? count=? cap=? ncols=? dtype=? data=UNOBSERVABLE:{type(e).__name__} timing=? scale=? props=?"
+
+    def _snap(self, kind, obj) -> str:
         rows = self.data_of(kind, obj)
         rt = "_" if not rows else "|".join(";".join(str(v) for v in r) for r in rows)
         ncols = obj.signal_count if kind == "digital" else 1
@@ -345,6 +352,8 @@ def gen_history(world: World, kind: str, length: int, weights=None, irregular_bi
     names = list(ops)
     for _ in range(length):
         k, o = world.objs[main]
+        if "UNOBSERVABLE" in world.snap(k, o):
+            break       # a previous call broke the object; that call's record already says so
         op = rng.choices(names, [ops[x] for x in names])[0]
         irregular = world.timing_render(o).startswith("I")
         if op == "appa":
@@ -557,4 +566,109 @@ def compare_with_model(ctx, world: World, driver: str = "drivers/Wfm.lean"):
         n += 1
         if g != want:
             ctx.mismatch(stream="waveform-machine " + line.split()[0], request=line[:300], model_says=got[:400], code_says=want[:400])
+    return n
+
+
+# ---------------------------------------------------------------------------------------------------------------------
+# borrowed / read-only buffers: single calls from a fixed state (shared by C01, C07, C09, C13)
+# ---------------------------------------------------------------------------------------------------------------------
+
+def observe(w):
+    """every observable of a waveform / spectrum, as plain data; never raises"""
+    try:
+        from nitypes.waveform import Spectrum
+        data = w.data if hasattr(w, "data") and not hasattr(w, "raw_data") else w.raw_data
+        out = {"data": (str(data.dtype), data.shape, data.tobytes()), "count": w.sample_count, "capacity": w.capacity, "start": w.start_index,
+               "props": list(w.extended_properties.items())}
+        if not isinstance(w, Spectrum):
+            t = w.timing
+            out["timing"] = (t.sample_interval_mode, t.has_timestamp and t.timestamp, t.has_time_offset and t.time_offset,
+                             t.has_sample_interval and t.sample_interval, None if t._timestamps is None else list(t._timestamps), id(t))
+        if hasattr(w, "signals"):
+            out["names"] = [w.signals[i].name for i in range(w.signal_count)]
+            out["signal_count"] = w.signal_count
+        if hasattr(w, "scale_mode"):
+            out["scale"] = repr(w.scale_mode)
+        return out
+    except Exception as e:  # noqa: BLE001
+        return {"UNOBSERVABLE": f"{type(e).__name__}: {e}"[:200]}
+
+
+def borrowed_cases(ctx, judge, quick_subset=False):
+    """Run append / load_data / capacity calls on waveforms that borrow memory they cannot resize and/or cannot write
+    (views, np.frombuffer(bytes), arrays flagged read-only), full and with spare capacity, in each timing mode.
+    judge(info, w, before, outcome, after) is called after every call; info describes the case."""
+    import numpy as np
+    from nitypes.waveform import AnalogWaveform, ComplexWaveform, DigitalWaveform, Spectrum, Timing
+    from props.common import outcome
+    t0 = dt.datetime(2025, 1, 1, tzinfo=dt.timezone.utc)
+    sec = dt.timedelta(seconds=1)
+    n = 0
+
+    def timing_for(kind, count, start=0):
+        if kind == "irregular":
+            return Timing.create_with_irregular_interval([t0 + (start + i) * sec for i in range(count)])
+        if kind == "regular":
+            return Timing.create_with_regular_interval(sec, t0)
+        return None
+
+    combos = ((AnalogWaveform, np.float64, 1), (ComplexWaveform, np.complex128, 1), (DigitalWaveform, np.uint8, 2),
+              (DigitalWaveform, np.uint8, 1), (Spectrum, np.float64, 1))
+    for cls, dtype, nd in combos:
+        for memory in ("readonly-bytes", "readonly-flag", "view", "owned"):
+            for slack in (0, 3):
+                for tk in (("none",) if cls is Spectrum else ("irregular", "regular", "none")):
+                    count = 2
+                    cols = 2 if nd == 2 else 1
+                    total = (count + slack) * cols
+
+                    def build():
+                        if memory == "readonly-bytes":
+                            buf = np.frombuffer(bytes(total * np.dtype(dtype).itemsize), dtype)
+                        elif memory == "readonly-flag":
+                            buf = np.zeros(total, dtype); buf.setflags(write=False)
+                        elif memory == "view":
+                            buf = np.arange(total + 2).astype(dtype)[1:-1]
+                        else:
+                            buf = (np.arange(total) % 5).astype(dtype)
+                        if nd == 2:
+                            buf = buf.reshape(count + slack, cols)
+                            if memory == "owned":
+                                buf = buf.copy()
+                        kw = dict(sample_count=count, extended_properties={"k": "v"})
+                        kw["data" if cls in (DigitalWaveform, Spectrum) else "raw_data"] = buf
+                        tm = timing_for(tk, count)
+                        if tm is not None:
+                            kw["timing"] = tm
+                        return cls(**kw)
+                    key = "data" if cls in (DigitalWaveform, Spectrum) else "raw_data"
+                    arr = lambda m: np.ones((m, cols) if nd == 2 else m, dtype)   # noqa: E731
+                    stamps = lambda m: [t0 + (count + i) * sec for i in range(m)]   # noqa: E731
+
+                    def source(m):
+                        kw2 = {key: arr(m), "extended_properties": {"new": "p"}}
+                        if cls is not Spectrum and tk != "none":
+                            kw2["timing"] = timing_for(tk, m, start=count)
+                        return cls(**kw2)
+                    calls = []
+                    for m in ((1, 5) if quick_subset else (1, 2, 5)):
+                        if cls is Spectrum:
+                            calls.append((f"append-array-{m}", lambda w, m=m: w.append(arr(m))))
+                        else:
+                            calls.append((f"append-array-{m}", lambda w, m=m: w.append(arr(m), stamps(m) if tk == "irregular" else None)))
+                        calls.append((f"append-waveform-{m}", lambda w, m=m: w.append(source(m))))
+                        calls.append((f"append-waveforms-{m}", lambda w, m=m: w.append([source(m), source(0)])))
+                        calls.append((f"load-copy-{m}", lambda w, m=m: w.load_data(arr(m)) if tk != "irregular" or m == count else w.load_data(arr(count))))
+                    calls.append(("capacity-grow", lambda w: setattr(w, "capacity", count + slack + 4)))
+                    for label, call in calls:
+                        w = build()
+                        before = observe(w)
+                        o = outcome(call, w)
+                        after = observe(w)
+                        n += 1
+                        info = dict(cls=cls.__name__, ndim=nd, memory=memory, slack=slack, timing=tk, call=label)
+                        ctx.count("borrowed", f"{cls.__name__}:{memory}:{label}:{'rejected' if o[0] == 'err' else 'accepted'}")
+                        ctx.case(("borrowed", cls.__name__, nd, memory, slack, tk, label))
+                        if judge(info, w, before, o, after) is False:
+                            return n
     return n
